@@ -39,8 +39,16 @@ MANIFEST = dict(
          "where a statement mentions numbers.",
     technique="Rocq/Coq proof (totality theorems, generated coverage obligation) + exhaustive/sampled builtin-call correspondence")
 
-UNMODELLED = {"sqrt", "exp", "log", "sin", "cos", "tan", "asin", "acos", "atan", "random-integer", "random-real",
-              "random-signed", "time-utc", "term-rows", "term-cols"}
+def _unmodelled():
+    """the explicit list of builtins without a model is the one the Coq coverage obligation
+    (Proofs/BuiltinCoverage.v, unmodelled_list_exact / builtin_coverage) is proved about"""
+    src = open(os.path.join(C.COQ, "Proofs", "BuiltinCoverage.v")).read()
+    m = re.search(r"Definition unmodelled_names[^:]*:[^=]*:=\s*\[(.*?)\]%string", src, re.S)
+    return set(re.findall(r'"([^"]+)"', m.group(1)))
+
+
+UNMODELLED = _unmodelled()
+os.environ.setdefault("MW_IMPL_MAX_TIMEOUTS", "1000")
 
 PALETTE = [
     "0", "-1", "1", "2", "255", "2147483647", "-2147483648", "2147483648", "9223372036854775807",
@@ -146,14 +154,14 @@ def generate(rng, tier):
 _CALL = re.compile(r"^\((\S+)")
 
 
+_WORD = re.compile(r"[^\s()'`,\"]+")
+
+
 def MODEL_SKIP(case):
+    """implementation-only: a form that mentions a builtin without a model anywhere"""
     if case[0] not in (70, 72):
         return False
-    for f in forms_of(case):
-        m = _CALL.match(f)
-        if m and m.group(1).rstrip(")") in UNMODELLED:
-            return True
-    return False
+    return any(w in UNMODELLED for f in forms_of(case) for w in _WORD.findall(f))
 
 
 def model_view(model_line, profile):
@@ -162,7 +170,7 @@ def model_view(model_line, profile):
 
 
 def _bad(line):
-    return line == "PANIC" or line.startswith(("ABORT", "TIMEOUT", "NOTRUN")) or " PANIC" in line
+    return line == "PANIC" or line.startswith(("ABORT", "TIMEOUT")) or " PANIC" in line
 
 
 def oracle(case, impl_line):
